@@ -104,11 +104,13 @@ def gen_ties(r, n):
 
 def check_ties(ctx, n, cases=None):
     cases = cases or gen_ties(ctx.rng, n)
-    impl = [cl.canon(x) for x in ctx.harness('client', [cl.to_line(c) for c in cases], shards=4)]
+    import re
+    nostep = lambda x: re.sub(r'#\d+', '', x)      # without settling, "during which step" is not an observable
+    impl = [nostep(cl.canon(x)) for x in ctx.harness('client', [cl.to_line(c) for c in cases], shards=4)]
     va, vb = zip(*[cl.tie_variants(c) for c in cases])
     if cl.MODEL_OK:
-        ma = [cl.canon(x) for x in ctx.coq_eval(cl.REQUIRES, 'eval_case', [cl.to_coq(c) for c in va], case_type='case')]
-        mb = [cl.canon(x) for x in ctx.coq_eval(cl.REQUIRES, 'eval_case', [cl.to_coq(c) for c in vb], case_type='case')]
+        ma = [nostep(cl.canon(x)) for x in ctx.coq_eval(cl.REQUIRES, 'eval_case', [cl.to_coq(c) for c in va], case_type='case')]
+        mb = [nostep(cl.canon(x)) for x in ctx.coq_eval(cl.REQUIRES, 'eval_case', [cl.to_coq(c) for c in vb], case_type='case')]
     else:
         ma = mb = impl
     bad = 0
